@@ -30,11 +30,11 @@ func init() {
 	simkit.Register(&simkit.Prop{
 		ID:             "C38",
 		Desc:           "wallet file persistence and password binding of account.ClientImpl against a list-of-records model",
-		Rule:           "a run = one real wallet file under the scratch directory, opened by the real ClientImpl, and 1..12 generated operations (create via NewAccount, add an externally encrypted account via ImportAccount (one in six in the legacy aes-256-ctr protection of old wallets), re-import a deleted / foreign account, delete with right or wrong password, set default, relabel from a small colliding label set, change password with right or wrong old password, change signature scheme, drop the client and reopen the file, open another wallet file with other key-derivation parameters in the same process); key types ECDSA P-224/256/384/521, SM2, Ed25519; most runs use a wallet whose scrypt section is cheap (so that hundreds of decryptions fit in a run), some the default parameters; after every operation and every reopen the account list, metadata and decryptability are compared with the model; non-trivial = at least 2 accounts existed at some point, at least one reopen happened after a mutation and at least one password or default/label/scheme change was applied; distinct = distinct event-trace hash",
+		Rule:           "a run = one real wallet file under the scratch directory, opened by the real ClientImpl, and 1..12 generated operations (create via NewAccount, add an externally encrypted account via ImportAccount (one in six in the legacy aes-256-ctr protection of old wallets), re-import a deleted / foreign account, delete with right or wrong password, set default, relabel from a small colliding label set, change password with right or wrong old password, change signature scheme, drop the client and reopen the file, open another wallet file with other key-derivation parameters in the same process, and - in cheap-scrypt wallets - change of the key-derivation scheme on an exported copy the way `account export --low-security` does it: WalletData.Clone, ToLowSecurity / ToDefaultSecurity with every account's password (one call in three with one wrong password for an account in an authenticated protection), Save, load by a second ClientImpl: a successful call and a refused one must both leave a file with the same accounts and metadata, each opening to the same key with its own password only); key types ECDSA P-224/256/384/521, SM2, Ed25519; most runs use a wallet whose scrypt section is cheap (so that hundreds of decryptions fit in a run), some the default parameters; after every operation and every reopen the account list, metadata and decryptability are compared with the model; non-trivial = at least 2 accounts existed at some point, at least one reopen happened after a mutation and at least one password or default/label/scheme change was applied; distinct = distinct event-trace hash",
 		Real:           []string{"account (ClientImpl, WalletData Save/Load, AccountData, AccountMetadata)", "ontology-crypto keypair (key generation, scrypt + AES-GCM protected keys) and signature schemes", "core/types.AddressFromPubKey", "the file system (tmpfs scratch directory)"},
 		Stub:           []string{"none: the harness is only the operation generator and the model"},
 		Assumptions:    []string{"the outcome (error / success) of an operation is taken from the real client except where the property fixes it: a wrong password must be refused by GetAccount*, DeleteAccount and ChangePassword", "an account whose address is already in the wallet is never imported again (the API does not define that case)", "no crash faults: every Save completes"},
-		ExpectedProbes: []string{"reopen", "delete_ok", "delete_default_refused", "delete_wrong_password_refused", "chpw_ok", "chpw_wrong_old_refused", "relabel_ok", "relabel_duplicate_refused", "setdefault_ok", "chsig_ok", "import_renamed", "reimport_deleted", "default_scrypt_wallet", "newaccount_real"},
+		ExpectedProbes: []string{"reopen", "delete_ok", "delete_default_refused", "delete_wrong_password_refused", "chpw_ok", "chpw_wrong_old_refused", "relabel_ok", "relabel_duplicate_refused", "setdefault_ok", "chsig_ok", "import_renamed", "reimport_deleted", "default_scrypt_wallet", "newaccount_real", "export_reencrypted", "export_refused_wrong_password", "export_refused_after_first_account"},
 		Run:            runC38,
 	})
 }
@@ -216,7 +216,7 @@ func runC38(c *simkit.Ctx) {
 	nOps := t.Range(1, maxOps)
 	maxAccts, mutated, changed, reopenedAfterMutation := 0, false, false, false
 	for i := 0; i < nOps; i++ {
-		op := t.Pick(6, 3, 3, 2, 3, 3, 2, 3, 1, 1, 1, 1)
+		op := t.Pick(6, 3, 3, 2, 3, 3, 2, 3, 1, 1, 1, 1, 1)
 		if len(w.model) == 0 && op != 7 {
 			op = 0
 		}
@@ -378,6 +378,19 @@ func runC38(c *simkit.Ctx) {
 			_, err := account.NewClientImpl(other)
 			c.Logf("op %d another wallet (scrypt n=%d r=%d p=%d dkLen=%d) opened in this process -> err=%v", i, op.N, op.R, op.P, op.DKLen, err)
 			c.Probe("other_wallet_opened")
+		case 12: // export under another key-derivation scheme, as `account export --low-security` does: clone, re-encrypt, save, load
+			if !w.custom {
+				continue // every decryption costs 16384-round scrypt there
+			}
+			skip := false
+			for _, a := range w.model {
+				skip = skip || a.broken
+			}
+			if skip {
+				continue
+			}
+			w.exportCopy(i)
+			continue
 		case 7: // drop the client object, reopen the file
 			w.reopen(i)
 			if mutated {
@@ -397,6 +410,86 @@ func runC38(c *simkit.Ctx) {
 	}
 	if maxAccts >= 2 && reopenedAfterMutation && changed {
 		c.NonTrivial()
+	}
+}
+
+// exportCopy: WalletData.Clone + ToLowSecurity / ToDefaultSecurity with the
+// accounts' passwords (one of them wrong in one call of three) + Save + load.
+// A successful call gives a wallet file with the same accounts, each opening to
+// the same key with its password only; a refused call leaves the copy as it
+// was (all or nothing), which the same comparison shows after save and load.
+func (w *c38World) exportCopy(i int) {
+	c, t := w.c, w.c.Tape
+	data := w.cli.GetWalletData().Clone()
+	if len(data.Accounts) != len(w.model) {
+		c.Fail("account-list-differs", "export/count", "op %d: the cloned wallet data has %d accounts, model has %d", i, len(data.Accounts), len(w.model))
+	}
+	var authed []int // accounts whose protection authenticates the password (not the legacy aes-256-ctr form)
+	for k, ad := range data.Accounts {
+		if ad.EncAlg != "aes-256-ctr" {
+			authed = append(authed, k)
+		}
+	}
+	wrongAt := -1
+	if len(authed) > 0 && t.Prob(1, 3) {
+		wrongAt = authed[t.Choose(len(authed))]
+	}
+	pws := make([][]byte, len(w.model))
+	for k, a := range w.model {
+		pws[k] = append([]byte(nil), a.pw...)
+		if k == wrongAt {
+			pws[k] = c38OtherPassword(t, a.pw)
+		}
+	}
+	low := t.Prob(4, 5)
+	var err error
+	if low {
+		err = data.ToLowSecurity(pws)
+	} else {
+		err = data.ToDefaultSecurity(pws)
+	}
+	c.Logf("op %d export copy (low=%v, %d accounts, wrong password at %d) -> err=%v", i, low, len(pws), wrongAt, err)
+	switch {
+	case wrongAt >= 0 && err == nil:
+		c.Fail("wrong-password-accepted", "export/reencrypt", "op %d: re-encryption of the wallet copy succeeds although the password given for account #%d (%s) is %q, not %q", i, wrongAt+1, w.model[wrongAt].addr, pws[wrongAt], w.model[wrongAt].pw)
+	case wrongAt < 0 && err != nil:
+		c.Fail("decrypt-fails-current-password", "export/reencrypt", "op %d: re-encryption of the wallet copy with every account's current password fails: %v", i, err)
+	case err == nil:
+		c.Probe("export_reencrypted")
+	default:
+		c.Probe("export_refused_wrong_password")
+		if wrongAt > 0 {
+			c.Probe("export_refused_after_first_account")
+		}
+	}
+	target := fmt.Sprintf("%s.export%d", w.path, i)
+	c.Must(data.Save(target), "save exported wallet")
+	defer os.Remove(target)
+	cli, oerr := account.NewClientImpl(target)
+	if oerr != nil || cli == nil {
+		c.Fail("metadata-changed-by-reload", "export/load", "op %d: the exported wallet file does not load: %v", i, oerr)
+	}
+	what := map[bool]string{true: "re-encrypted", false: "refused (must be unchanged)"}[err == nil]
+	if n := cli.GetAccountNum(); n != len(w.model) {
+		c.Fail("account-list-differs", "export/count", "op %d: exported wallet (%s) lists %d accounts, the wallet %d", i, what, n, len(w.model))
+	}
+	for k, a := range w.model {
+		m, live := cli.GetAccountMetadataByIndex(k+1), w.cli.GetAccountMetadataByIndex(k+1)
+		if m == nil || live == nil || m.Address != live.Address || m.Label != live.Label || m.IsDefault != live.IsDefault || m.SigSch != live.SigSch || m.PubKey != live.PubKey || m.KeyType != live.KeyType || m.Curve != live.Curve {
+			c.Fail("account-list-differs", "export/metadata", "op %d: exported wallet (%s) account #%d is %+v, in the wallet %+v", i, what, k+1, m, live)
+		}
+		acc, derr := cli.GetAccountByAddress(a.addr, a.pw)
+		if derr != nil || acc == nil {
+			c.Fail("decrypt-fails-current-password", "export/open", "op %d: exported wallet (%s; wrong password was given for account #%d): account #%d %s does not open with its current password %q: %v", i, what, wrongAt+1, k+1, a.addr, a.pw, derr)
+		}
+		if got := keypair.SerializePrivateKey(acc.PrivateKey); !bytes.Equal(got, a.priv) {
+			c.Fail("decrypts-to-other-key", "export/open", "op %d: exported wallet (%s): account %s opens to private key %x, its key is %x", i, what, a.addr, got, a.priv)
+		}
+		if data.Accounts[k].EncAlg != "aes-256-ctr" {
+			if acc, derr := cli.GetAccountByAddress(a.addr, c38OtherPassword(t, a.pw)); derr == nil && acc != nil {
+				c.Fail("wrong-password-accepted", "export/open", "op %d: exported wallet (%s): account %s opens with a password that is not its own", i, what, a.addr)
+			}
+		}
 	}
 }
 
